@@ -39,6 +39,11 @@ def collect(prop, res):
     issues = []
     for r in res['runs']:
         cfg = r['cfg']
+        er = r.get('error')
+        if er and er.get('phase') in ('build', 'prior') and not cfg.get('expect_build_error'):
+            # the scenario could not even be set up: nothing was checked on it (never a silent pass)
+            issues.append(dict(what='scenario-setup-failed', layer='correspondence', cfg_kind=cfg['kind'], error=er,
+                               known=None, replay=dict(how='runlevel', cfg=cfg, what='scenario-setup-failed')))
         for i in r['issues'].get(prop, []):
             j = dict(i)
             j['cfg_kind'] = cfg['kind']
@@ -58,6 +63,10 @@ def collect(prop, res):
             tl = r['machine']['truthLog']
             if tl != '-' and '0' in tl.split(','):
                 known = 'K1' if cfg['kind'] == 'WCA' and 'K1' in {f['id'] for f in findings.load()['findings']} else None
+                unt = [i for i in r['issues'].get('C20', []) if i['what'] == 'untruthful-record']
+                if unt and all(findings.classify('C20', cfg, i) == 'K13' for i in unt):
+                    # the machine flags exactly the records of the recorded finding (stale personal bests on a reused space)
+                    known = 'K13'
                 issues.append(dict(what='truth-flag', layer='correspondence', cfg_kind=cfg['kind'], truthLog=tl,
                                    known=known, replay=dict(how='runlevel', cfg=cfg, what='truth-flag')))
     return issues
@@ -179,7 +188,33 @@ def extra_configs(prop, tier, seed):
                     prior.update(n_iter=1)
                 c['prior'] = prior
                 extra.append(c)
-    if prop in ('C02', 'C20'):
+    if prop in ('C01', 'C02', 'C07', 'C20', 'C12'):
+        # the recorded task is the second one on the same space object (same objective): boxes away from the origin,
+        # so that a position that was never sampled (zeros of a freshly allocated table) is visibly infeasible
+        rng = _random.Random(seed * 53 + 31)
+        pool = runlevel.gen_configs('thorough', seed + 111)
+        kinds_ = {'C12': ['GP']}.get(prop, ['PSO', 'AIWPSO', 'RPSO', 'HC', 'ABC', 'CS', 'GP'])
+        for kind in kinds_:
+            for c in [c for c in pool if c['kind'] == kind and c['objective'] not in ('view0', 'view00')][:2 if tier == 'quick' else 8]:
+                c = dict(c, hook='observer', adv=0.0, n_iter=max(c['n_iter'], 3), box='offset', prior=dict(same_space=True))
+                if c['space'] != 'hyper':
+                    lo, hi = [], []
+                    for _ in range(c['n_vars']):
+                        a, w = round(rng.uniform(2, 7), 2), rng.choice([0.25, 1.0, 7.0])
+                        if rng.random() < 0.5:
+                            lo.append(a); hi.append(a + w)
+                        else:
+                            lo.append(-a - w); hi.append(-a)
+                    c['lb'], c['ub'] = lo, hi
+                extra.append(c)
+    if prop in ('C20', 'C01', 'C02'):
+        # … and the second task has another objective than the first (every value of the first one is far smaller)
+        rng = _random.Random(seed * 61 + 41)
+        pool = runlevel.gen_configs('thorough', seed + 131)
+        for kind in ['HC', 'ABC', 'CS', 'FPA', 'HS', 'SA', 'BHA', 'FA', 'SCA', 'GSA']:
+            for c in [c for c in pool if c['kind'] == kind and c['objective'] not in ('view0', 'view00', 'fmax')][:1 if tier == 'quick' else 6]:
+                extra.append(dict(c, hook='observer', adv=0.0, n_iter=max(c['n_iter'], 3), prior=dict(same_space=True, other_objective=True)))
+    if prop in ('C02', 'C20', 'C07'):
         # objectives whose return value is a view of their argument, with optimizers that move agents in place and
         # with the swarm family: the stored fitness is the value returned, whatever happens to the argument later
         rng = _random.Random(seed * 41 + 23)
@@ -187,7 +222,7 @@ def extra_configs(prop, tier, seed):
         for kind in ('HC', 'BHA', 'PSO', 'RPSO', 'SA', 'FA', 'SCA'):
             for c in [c for c in pool if c['kind'] == kind][:3 if tier == 'quick' else 12]:
                 box = rng.choice(['wide', 'offset', 'unit'])
-                c = dict(c, hook='observer', adv=0.0, objective='view0', n_iter=rng.choice([3, 6]), box=box, hyper={})
+                c = dict(c, hook='observer', adv=0.0, objective=rng.choice(['view0', 'view0', 'view00']), n_iter=rng.choice([3, 6]), box=box, hyper={})
                 c['lb'], c['ub'] = runlevel.make_box(rng, box, c['n_vars'])
                 extra.append(c)
     if prop == 'C04':
@@ -196,11 +231,17 @@ def extra_configs(prop, tier, seed):
         pool = [c for c in runlevel.gen_configs('thorough', seed + 101) if c['kind'] in ('HC', 'BHA', 'WCA', 'PSO', 'SA', 'FA') and c['space'] == 'search']
         for kind in ('HC', 'BHA', 'PSO', 'SA', 'FA'):
             for c in [c for c in pool if c['kind'] == kind][:3 if tier == 'quick' else 10]:
-                c = dict(c, hook='observer', adv=0.0, objective='view0', n_iter=rng.choice([3, 6]), box='wide', hyper={},
+                c = dict(c, hook='observer', adv=0.0, objective=rng.choice(['view0', 'view00']), n_iter=rng.choice([3, 6]), box='wide', hyper={},
                          store_best_only=rng.random() < 0.3)
                 c['lb'], c['ub'] = runlevel.make_box(rng, 'wide', c['n_vars'])
                 extra.append(c)
     if prop == 'C03':
+        # a hook that relocates an agent beyond the box: the sweep evaluates exactly what the hook left behind
+        rng0 = _random.Random(seed * 59 + 37)
+        pool0 = [c for c in runlevel.gen_configs('thorough', seed + 121) if c['kind'] != 'GP']
+        for kind in [k for k in runlevel.KINDS if k != 'GP']:
+            for c in [c for c in pool0 if c['kind'] == kind][:1 if tier == 'quick' else 5]:
+                extra.append(dict(c, hook='outside', adv=0.0, n_iter=max(2, min(c['n_iter'], 4)), objective=rng0.choice(['sphere', 'positive', 'rastrigin'])))
         for j, c in enumerate([c for c in runlevel.gen_configs('thorough', seed + 78) if c['kind'] == 'GP'][:6 if tier == 'quick' else 24]):
             nv = c['n_vars']
             extra.append(dict(c, hook='observer', functions=[['EXP', 'COS', 'SUM'], ['EXP', 'SIN', 'SUM', 'MUL'], ['EXP', 'SUB', 'COS', 'SUM']][j % 3],
